@@ -259,6 +259,9 @@ func runC05(c *core.Case) *core.Result {
 	if sig, msg := w.b.CheckLog(w.ledger, ""); sig != "" {
 		return c.Violation(sig, "%s", msg)
 	}
+	if sig, msg := w.entriesCompleted(); sig != "" {
+		return c.Violation(sig, "%s", msg)
+	}
 	if sig, msg := w.finalAgreement(); sig != "" {
 		return c.Violation(sig, "%s", msg)
 	}
